@@ -159,6 +159,11 @@ class MPEGAdaption(object):
         self.splicing_flag = bool((_flags >> 2) & 1)
         self.transpart_flag = bool((_flags >> 1) & 1)
         self.extension_flag = bool((_flags >> 0) & 1)
+        self.pcr = bytes()
+        self.opcr = bytes()
+        self.splice_countdown = 0
+        self.private_data = bytes()
+        self.adaption_extension = None
 
         offset = 2
         if self.pcr_flag:
